@@ -506,6 +506,112 @@ func main() {
 		}
 	}
 
+	// ---------- limits belong to the request: consecutive requests of databases with different limits (decoders, converters
+	// and batches are pooled across requests); payloads of clean metrics (distinct short tag keys, plain field names), so that
+	// "valid under this request's limits" is unambiguous: tags <= max tags and fields <= max fields (0 = unlimited)
+	{
+		strict := models.NewDefaultLimits()
+		strict.MaxTagsPerMetric, strict.MaxFieldsPerMetric = 1, 1
+		mid := models.NewDefaultLimits()
+		mid.MaxTagsPerMetric, mid.MaxFieldsPerMetric = 2, 3
+		loose := models.NewDefaultLimits()
+		loose.MaxTagsPerMetric, loose.MaxFieldsPerMetric = 0, 0
+		sets := []*models.Limits{strict, mid, loose, models.NewDefaultLimits()}
+		for i := 0; i < cfg.N/4+12; i++ {
+			lim := sets[r.Intn(len(sets))]
+			path := []string{"flat", "proto", "influx"}[r.Intn(3)]
+			n := r.Range(1, 4)
+			type clean struct{ name string; tags, fields int }
+			var ms []clean
+			var want []string
+			for j := 0; j < n; j++ {
+				c := clean{name: fmt.Sprintf("lm%d_%d", i, j), tags: r.Intn(4), fields: r.Range(1, 4)}
+				ms = append(ms, c)
+				stored := c.fields
+				if path == "influx" {
+					stored = 2 * c.fields // a numeric line-protocol field is stored as two fields; the limit counts stored fields
+				}
+				if (lim.MaxTagsPerMetric <= 0 || c.tags <= lim.MaxTagsPerMetric) && (lim.MaxFieldsPerMetric <= 0 || stored <= lim.MaxFieldsPerMetric) {
+					want = append(want, c.name)
+				}
+			}
+			var batch *metric.BrokerBatchRows
+			var err error
+			switch path {
+			case "flat":
+				var buf bytes.Buffer
+				for _, c := range ms {
+					rb := commonseries.CreateRowBuilder()
+					rb.AddMetricName([]byte(c.name))
+					rb.AddTimestamp(1700000000000)
+					for t := 0; t < c.tags; t++ {
+						_ = rb.AddTag([]byte(fmt.Sprintf("k%d", t)), []byte("v"))
+					}
+					for f := 0; f < c.fields; f++ {
+						_ = rb.AddSimpleField([]byte(fmt.Sprintf("f%d", f)), flatMetricsV1.SimpleFieldTypeDeltaSum, 1)
+					}
+					data, berr := rb.Build()
+					if berr != nil {
+						panic(berr)
+					}
+					buf.Write(data)
+				}
+				batch, err = flat.ParseReader(bytes.NewReader(buf.Bytes()), nil, "ns", lim)
+			case "proto":
+				var ml protoMetricsV1.MetricList
+				for _, c := range ms {
+					pm := &protoMetricsV1.Metric{Name: c.name, Timestamp: 1700000000000}
+					for t := 0; t < c.tags; t++ {
+						pm.Tags = append(pm.Tags, &protoMetricsV1.KeyValue{Key: fmt.Sprintf("k%d", t), Value: "v"})
+					}
+					for f := 0; f < c.fields; f++ {
+						pm.SimpleFields = append(pm.SimpleFields, &protoMetricsV1.SimpleField{Name: fmt.Sprintf("f%d", f), Type: protoMetricsV1.SimpleFieldType_DELTA_SUM, Value: 1})
+					}
+					ml.Metrics = append(ml.Metrics, pm)
+				}
+				data, _ := ml.Marshal()
+				req, _ := http.NewRequest(http.MethodPost, "http://x/write", bytes.NewReader(data))
+				batch, err = proto.Parse(req, nil, "ns", lim)
+			default:
+				var sb strings.Builder
+				for _, c := range ms {
+					sb.WriteString(c.name)
+					for t := 0; t < c.tags; t++ {
+						sb.WriteString(fmt.Sprintf(",k%d=v", t))
+					}
+					sb.WriteString(" ")
+					for f := 0; f < c.fields; f++ {
+						if f > 0 {
+							sb.WriteString(",")
+						}
+						sb.WriteString(fmt.Sprintf("f%d=1", f))
+					}
+					sb.WriteString(" 1700000000000\n")
+				}
+				req, _ := http.NewRequest(http.MethodPost, "http://x/write?precision=ms", strings.NewReader(sb.String()))
+				batch, err = influx.Parse(req, nil, "ns", lim)
+			}
+			var got []string
+			if err == nil && batch != nil {
+				for _, row := range batch.Rows() {
+					m := row.Metric()
+					got = append(got, string(m.Name()))
+				}
+			}
+			idx := out.Case(map[string]interface{}{"kind": "limits-of-the-request", "path": path, "max_tags": lim.MaxTagsPerMetric, "max_fields": lim.MaxFieldsPerMetric,
+				"metrics": fmt.Sprint(ms), "accepted": got, "valid": want}, len(want) != n && len(want) > 0)
+			out.Count("limits-of-the-request:" + path)
+			if strings.Join(got, ",") != strings.Join(want, ",") {
+				out.Violation(idx, "limits-of-another-request", fmt.Sprintf("%s path, limits tags<=%d fields<=%d: metrics %v: accepted %v, valid under these limits %v (err %v)",
+					path, lim.MaxTagsPerMetric, lim.MaxFieldsPerMetric, ms, got, want, err), nil)
+			}
+			if batch != nil {
+				batch.Release()
+			}
+			out.Check(idx, "(0%nat, 0%nat)")
+		}
+	}
+
 	// ---------- line-protocol bodies of several lines, some of them rejected: an accepted row is the row its line gives
 	// when it is sent alone ("does not depend on the other rows of the batch", "invalid metrics are rejected as a whole")
 	{
